@@ -398,6 +398,19 @@ def _arange(e, st, node, n, hi=None, step=None):
     return e.new_obj(st, a)
 
 
+@prim('np.cumsum')
+def _cumsum(e, st, node, x, axis=None, dtype=None):
+    """cumsum(a)[k] = a[0] + ... + a[k]: a fresh array defined by its recurrence (prefix sums)"""
+    a = e.deref(st, x)
+    if not (isinstance(a, Arr) and a.ndim == 1 and a.kind in ('int', 'real')):
+        raise Unsupported('cumsum form')
+    Cs = e.fresh('cumsum', e.arr_sort(a.kind))
+    k = e.L.var('q')
+    st.pc += [z3.Implies(a.shape[0] > 0, z3.Select(Cs, 0) == a[0]),
+              z3.ForAll([k], z3.Implies(z3.And(k >= 1, k < a.shape[0]), z3.Select(Cs, k) == z3.Select(Cs, k - 1) + a[k]))]
+    return e.new_obj(st, Arr(Cs, a.shape, a.kind))
+
+
 @prim('np.maximum', 'np.minimum')
 def _maxmin(e, st, node, x, y):
     big = node.func.attr == 'maximum'
@@ -561,6 +574,8 @@ def _where(e, st, node, mask, x=None, y=None):
         return _where2d(e, st, node, m)
     if m.ndim != 1:
         raise Unsupported('np.where on n-d mask')
+    if m.kind in ('int', 'real'):
+        m = e.lam(lambda i: m_[i] != 0, m.shape, 'bool') if (m_ := m) is not None else m      # np.where(numbers): the non-zero positions
     W = e.fresh('where', e.arr_sort('int'))
     cnt = e.fresh('cnt', 'int')
     rk = e.fresh_fn('rk', [z3.IntSort()], z3.IntSort())
@@ -746,6 +761,20 @@ def _append(e, st, node, recv, x):
         st.heap[recv.oid] = Arr(z3.Store(a.term, a.shape[0], e.num(x, a.kind)), (a.shape[0] + 1,), a.kind, a.init, a.meta)
         return NONE
     raise Unsupported('append to %r' % (a,))
+
+
+@method('extend')
+def _extend(e, st, node, recv, xs):
+    a, b = e.deref(st, recv), e.deref(st, xs)
+    if not (isinstance(a, Arr) and isinstance(b, Arr) and a.ndim == 1 and b.ndim == 1):
+        raise Unsupported('extend form')
+    if a.meta.get('empty_literal'):
+        a = Arr(z3.K(z3.IntSort(), zero(b.kind)), (0,), b.kind, meta={'list': True})
+    kind = a.kind
+    new = e.lam(lambda i: z3.If(i < a.shape[0], a[i], e.num(b[i - a.shape[0]], kind)), (a.shape[0] + b.shape[0],), kind)
+    new.meta = dict(a.meta)
+    st.heap[recv.oid] = new
+    return NONE
 
 
 @method('pop')
